@@ -519,6 +519,13 @@ def _parse_schema(
             return placeholder
         elif schema_name and schema_name in context.parsed_schemas:
             return context.parsed_schemas[schema_name]
+        elif (
+            schema_name
+            and NameSanitizer.sanitize_class_name(schema_name) not in context.raw_spec_schemas
+            and NameSanitizer.sanitize_class_name(schema_name) in context.parsed_schemas
+        ):
+            # The finished schema replaced its placeholder under the sanitised name (see registration below)
+            return context.parsed_schemas[NameSanitizer.sanitize_class_name(schema_name)]
         else:
             # Fallback to empty schema
             return IRSchema(name=NameSanitizer.sanitize_class_name(schema_name) if schema_name else None)
@@ -947,6 +954,16 @@ def _parse_schema(
                     )
 
             context.parsed_schemas[registration_key] = schema_ir
+
+            # A self-reference / cycle placeholder of this schema was stored under the declared name; when that is the
+            # registration key the line above has just replaced it. A declared name the sanitiser rewrites
+            # (tree_node -> TreeNode) must not keep the placeholder as a second schema of the same name.
+            if registration_key != schema_name and registration_key not in context.raw_spec_schemas:
+                stale = context.parsed_schemas.get(schema_name)
+                if stale is not None and stale is not schema_ir and (
+                    stale._is_self_referential_stub or stale._is_circular_ref
+                ) and stale.name == schema_ir.name:
+                    del context.parsed_schemas[schema_name]
 
         # Set generation_name and final_module_stem for schemas that will be generated as separate files
         # Skip for synthetic primitives (inline types) - they should remain without these attributes
